@@ -172,7 +172,9 @@ def run(argv):
     reqs, pend = [], []
     reps = 2 if tier == "quick" else 12
     for mname, mcls in models.items():
-        classes = ["leeds", "native"] if mname in ("base", "hh93", "hh93i") else ["uclchem", "native"]
+        # every model with every reaction class that can carry grain reactions (the classes register different symbols:
+        # only the Leeds class has a dust temperature of its own)
+        classes = ["leeds", "native"] if mname in ("base", "hh93", "hh93i") else ["uclchem", "native", "leeds"]
         for cls in classes:
             prefix = "G" if cls == "leeds" else "#"
             ice = lambda n: prefix + n
